@@ -771,12 +771,18 @@ func (e *Engine) builtin(st *State, th *Thread, name string, args []Value, in *s
 				src = append(src, st.obj(a.Obj).Cells[a.Off:a.Off+a.Len*es]...)
 			}
 		case *term.Term:
-			if !a.IsConst() {
-				abort("UNMODELLED", "copy from symbolic string")
+			for a.Op == term.OpIte { // a choice of strings: decide which one it is on this path
+				if e.decide(st, a.Args[0]) {
+					a = a.Args[1]
+				} else {
+					a = a.Args[2]
+				}
 			}
-			for _, c := range []byte(a.S) {
-				src = append(src, term.BVC(8, uint64(c)))
+			cells, ok := stringCells(a)
+			if !ok {
+				abort("UNMODELLED", "copy from symbolic string %s", a)
 			}
+			src = append(src, cells...)
 		}
 		n := len(src) / es
 		if n > d.Len {
